@@ -32,6 +32,23 @@ class HalfSource(io.RawIOBase):
         return chunk
 
 
+class FlakyStream:
+    """wraps the REAL source stream of a transfer: passes reads through, but raises a one-off OSError (a transient I/O error) once
+    half of the bytes have been read; the underlying stream keeps its position, as a real file object would"""
+
+    def __init__(self, real, size, state):
+        self.real, self.size, self.state, self.n = real, size, state, 0
+
+    def read(self, n=-1):
+        if not self.state["fired"] and self.n >= self.size // 2:
+            self.state["fired"] = True
+            raise OSError(5, "Input/output error (injected, transient)")
+        want = max(1, self.size // 2 - self.n) if not self.state["fired"] else (n if n and n > 0 else -1)
+        chunk = self.real.read(want)
+        self.n += len(chunk)
+        return chunk
+
+
 def setup_workdir(root, image_id, files):
     work = os.path.join(root, "work")
     store = os.path.join(root, "store")
@@ -54,6 +71,7 @@ def run_publish(work, image_id, listing, fault):
     mgr = PipelineManager(work)
     real_put = mgr._pipeio.put_item
     state = {"n": 0}
+    flaky = {"fired": False}
 
     def put(*path, source=None):
         i = state["n"]
@@ -62,6 +80,10 @@ def run_publish(work, image_id, listing, fault):
             raise Boom("fault before transfer %d" % i)
         if fault and fault[0] == "during" and fault[1] == i:
             return real_put(*path, source=HalfSource(source.read()))
+        if fault and fault[0] == "oserr" and fault[1] == i and not flaky["fired"]:
+            # a transient OSError half-way through this transfer (only this first attempt fails)
+            size = os.fstat(source.fileno()).st_size
+            return real_put(*path, source=FlakyStream(source, size, flaky))
         r = real_put(*path, source=source)
         if fault and fault[0] == "after" and fault[1] == i:
             raise Boom("fault after transfer %d" % i)
@@ -88,6 +110,8 @@ def run_publish(work, image_id, listing, fault):
             mgr.publish()
         return None
     except Boom as e:
+        return e
+    except OSError as e:
         return e
 
 
@@ -158,7 +182,7 @@ def to_run(listing, fault, n):
         k, mid, ren = n, 0, 1
     elif fault[0] == "before":
         k, mid, ren = fault[1], 0, 0
-    elif fault[0] == "during":
+    elif fault[0] in ("during", "oserr"):
         k, mid, ren = fault[1], 1, 0
     elif fault[0] == "after":
         k, mid, ren = fault[1] + 1, 0, 0
@@ -192,7 +216,7 @@ def main():
         for _r in range(rng.choice([1, 2, 2, 3])):
             perm = files[:]
             rng.shuffle(perm)
-            f = rng.choice([None, ("rename",)] + [(ph, i) for i in range(n) for ph in ("before", "during", "during", "after")])
+            f = rng.choice([None, ("rename",)] + [(ph, i) for i in range(n) for ph in ("before", "during", "during", "after", "oserr")])
             runs.append((perm, f))
         histories.append((files, runs))
     lines, py = [], []
